@@ -216,4 +216,16 @@ def build_finite(tier, seed):
             if den is None:
                 den = ("f32", 0x7FC00000) if ty == "f32" else ("f64", 0x7FF8000000000000)
             d.default = (txt, den)
+        # traps: Eq/Ord without `finite` must be refused (C08). Should the macro ever accept them, the C12 monitors apply:
+        # NaN becomes obtainable and the order axioms break. Normally these are rejected and silently dropped.
+        for trap in ("bounds", "predicate", "custom"):
+            d = b.new(inner_float(ty), tags=list(tags))
+            if trap == "bounds":
+                d.vals.append(float_bound("greater_or_equal", ty, "-1.5", None, Fraction(-3, 2), d))
+            elif trap == "predicate":
+                add_predicate(d, "*x != 0.5", "closure")
+            else:
+                add_custom_validation(d, "*x != 0.5")
+            d.derives = list(der)
+            d.unspecified = True
     return b.decls
